@@ -43,7 +43,7 @@ class FlowGen:
         self.feat = set()
         # variables that inner functions may use: Cython cannot delete those ("can not delete variable referenced in
         # nested scope", also for the implicit delete at the end of 'except ... as v'), so they are never deleted
-        self.closure_ok = {v for v in self.vars if self.profile[v] == 'obj' and rng.random() < 0.35}
+        self.closure_ok = {v for v in self.vars if self.profile[v] == 'obj' and rng.random() < 0.55}
         self.closure_vars = set()
         self.nloop = 0
         self.stack = []
@@ -110,7 +110,7 @@ class FlowGen:
         if depth >= self.max_depth:
             return self.leaf(ind)
         kinds = [('leaf', 30), ('if', 20), ('for', 9), ('while', 5), ('try', 12), ('tryfin', 6), ('with', 5), ('match', 4),
-                 ('comp', 3), ('inner', 4), ('exc_as', 4), ('forvar', 4)]
+                 ('comp', 3), ('inner', 9), ('exc_as', 4), ('forvar', 4)]
         if 'loop' in self.stack:
             kinds.append(('brk', 8))
         tot = sum(w for _, w in kinds)
@@ -243,7 +243,7 @@ class FlowGen:
         raise AssertionError(k)
 
     def function(self):
-        init = ['    %s = %s' % (v, self.value(v)) for v in self.vars if self.rng.random() < 0.5]
+        init = ['    %s = %s' % (v, self.value(v)) for v in self.vars if self.rng.random() < 0.72]
         body = init + self.block('    ', 0, 3, 6)
         tail = []
         for v in self.vars:
